@@ -109,6 +109,7 @@ void run_history(Tape& t, Ctx& ctx, const char* oname) {
   if (ctx.want_desc) ctx.desc << "\"part\": \"optimizer\", \"order\": \"" << oname << "\", \"dim\": " << D << ", \"inits\": [";
   bool nt = false;
   bool prev_stored_valid_known = false;
+  InitInput prev_in; bool have_prev = false;
   for (int r = 0; r < rounds; ++r) {
     InitInput in;
     int N = t.rangez(0, 5, 2);
@@ -141,6 +142,19 @@ void run_history(Tape& t, Ctx& ctx, const char* oname) {
       else if (f == 5) in.bc.end_acceleration(d) = sv;
       else in.bc.end_jerk(d) = sv;
     }
+    // huge but finite magnitudes are valid data (a finiteness test through a norm or a product overflows for them)
+    if (t.chance(1, 6)) {
+      static const double huge[] = {1e153, 1e155, 1e200, 1e300, -1e160, 1.7e308};
+      double hv = huge[t.range(0, 5)];
+      int f = t.range(0, 6), d = t.range(0, D - 1);
+      if (f == 0) { if (rows > 0) in.P(t.range(0, rows - 1), d) = hv; }
+      else if (f == 1) in.bc.start_velocity(d) = hv; else if (f == 2) in.bc.start_acceleration(d) = hv; else if (f == 3) in.bc.start_jerk(d) = hv;
+      else if (f == 4) in.bc.end_velocity(d) = hv; else if (f == 5) in.bc.end_acceleration(d) = hv; else in.bc.end_jerk(d) = hv;
+      ctx.label("huge-finite-value");
+    }
+    // 1/4 of the rounds re-submit exactly the previous input (the verdict AND the message must be produced again)
+    if (r > 0 && have_prev && t.chance(1, 4)) { in = prev_in; N = (int)in.T.size(); rows = (int)in.P.rows(); ctx.label("resubmit-identical-input"); }
+    prev_in = in; have_prev = true;
     int route = t.pickw({5, 4, 1});  // durations / time points / empty time points
     int off = 0;
     if (route == 2) {
